@@ -126,6 +126,25 @@ def _run_z3_old(smt2: str, timeout_s: float):
 
 
 def _solve_job(job):
+    if len(job) == 5:
+        idx, smt2, timeout_s, use_cvc5, mode = job
+        try:
+            if mode == "full-z3new":      # z3 5.1 on the full query for the whole budget
+                rs, dt, why = _run_z3(smt2, timeout_s)
+                return idx, rs, "z3", dt, why
+            if mode == "full-z3old":
+                rs, dt, why = _run_z3_old(smt2, timeout_s)
+                return idx, rs, "z3-4.8.12", dt, why
+            if mode == "pruned":          # subset of hypotheses: only `unsat` is conclusive
+                pruned = smt2
+                rs, dt, why = _run_z3_old(pruned, timeout_s)
+                if rs != "unsat":
+                    rs2, dt2, why2 = _run_z3(pruned, timeout_s)
+                    dt += dt2
+                    rs = rs2 if rs2 == "unsat" else "unknown"
+                return idx, rs if rs == "unsat" else "unknown", "z3(pruned hypotheses)", dt, ""
+        except Exception as e:
+            return idx, "unknown", mode, 0.0, repr(e)
     idx, smt2, timeout_s, use_cvc5 = job
     if isinstance(smt2, tuple):
         # (pruned, full): the pruned variant has a subset of the hypotheses, so `unsat` there is a proof; otherwise decide the full one
@@ -142,9 +161,19 @@ def _solve_job(job):
                 return idx, "unsat", be + "(pruned hypotheses)", dt, ""
         except Exception:
             pass
-        return _solve_job((idx, full, timeout_s, use_cvc5))
+        # full query: z3 5.1 first for the whole budget (it decides the heavy quantified ones), then 4.8.12, then cvc5
+        try:
+            rs, dt2, why = _run_z3(full, timeout_s)
+            if rs in ("sat", "unsat"):
+                return idx, rs, "z3", dt + dt2, ""
+            rs, dt3, why3 = _run_z3_old(full, timeout_s)
+            if rs in ("sat", "unsat"):
+                return idx, rs, "z3-4.8.12", dt + dt2 + dt3, ""
+            return idx, "unknown", "z3", dt + dt2 + dt3, "z3: %s; z3-4.8.12: %s" % (why, why3)
+        except Exception as e:
+            return idx, "error", "z3", 0.0, repr(e)
     try:
-        first = min(timeout_s, 3.0)
+        first = min(timeout_s, 40.0)
         rs, dt, why = _run_z3(smt2, first)
         backend = "z3"
         if rs == "unknown" and os.path.exists("/usr/bin/z3"):
@@ -187,10 +216,24 @@ def solve_all(obls: List[Obligation], timeout_s: float = DEFAULT_TIMEOUT_S, npro
             continue
         seen[h] = i
         to = o.timeout_s or timeout_s
-        jobs.append((i, (o.pruned_smt2, txt) if o.pruned_smt2 else txt, to, use_cvc5))
+        if o.meta.get("strategy") == "parallel":
+            # three independent attempts in parallel; the first conclusive verdict counts (unsat from any; sat only from a full query)
+            jobs.append((i, txt, to, use_cvc5, "full-z3new"))
+            jobs.append((i, txt, to, use_cvc5, "full-z3old"))
+            if o.pruned_smt2:
+                jobs.append((i, o.pruned_smt2, to, use_cvc5, "pruned"))
+        else:
+            jobs.append((i, (o.pruned_smt2, txt) if o.pruned_smt2 else txt, to, use_cvc5))
 
     def finish(i, rs, backend, dt, why):
         o = obls[i]
+        if o.meta.get("strategy") == "parallel":
+            if o.verdict in ("discharged", "refuted"):
+                return                      # already decided by another attempt
+            if rs not in ("sat", "unsat") and o.meta.setdefault("_attempts", 0) + 1 < (3 if o.pruned_smt2 else 2):
+                o.meta["_attempts"] += 1    # wait for the other attempts
+                o.backend, o.time_s, o.detail, o.verdict = backend, max(o.time_s, dt), why, "unknown"
+                return
         o.backend, o.time_s, o.detail = backend, dt, why
         if rs == "error":
             o.verdict = "error"
@@ -208,18 +251,33 @@ def solve_all(obls: List[Obligation], timeout_s: float = DEFAULT_TIMEOUT_S, npro
             for j in dup.get(r[0], []):
                 finish(j, *r[1:])
         return
-    # longest budgets first, chunk small ones
+    # heavy jobs (quantified / with a pruned variant / explicit budget) are started first, one per task; the many small ones
+    # follow in chunks, so a heavy query never waits behind thousands of trivial ones
+    def heavy(j):
+        txt = j[1][1] if isinstance(j[1], tuple) else j[1]
+        return isinstance(j[1], tuple) or "forall" in txt or obls[j[0]].timeout_s > 0
+    hj = [j for j in jobs if heavy(j)]
+    lj = [j for j in jobs if not heavy(j)]
+    cs = max(1, min(32, len(lj) // (nproc * 4) or 1))
+    chunks = [lj[k:k + cs] for k in range(0, len(lj), cs)]
     with ProcessPoolExecutor(max_workers=nproc) as ex:
+        futs = [ex.submit(_solve_chunk, [j]) for j in hj] + [ex.submit(_solve_chunk, ch) for ch in chunks]
         n = 0
-        for r in ex.map(_solve_job, jobs, chunksize=max(1, min(16, len(jobs) // (nproc * 4) or 1))):
-            finish(*r)
-            for j in dup.get(r[0], []):
-                finish(j, *r[1:])
-                obls[j].backend += "(dedup)"
-                obls[j].time_s = 0.0
-            n += 1
-            if progress and n % 200 == 0:
-                progress(n, len(jobs))
+        from concurrent.futures import as_completed
+        for f in as_completed(futs):
+            for r in f.result():
+                finish(*r)
+                for j in dup.get(r[0], []):
+                    finish(j, *r[1:])
+                    obls[j].backend += "(dedup)"
+                    obls[j].time_s = 0.0
+                n += 1
+                if progress and n % 200 == 0:
+                    progress(n, len(jobs))
+
+
+def _solve_chunk(chunk):
+    return [_solve_job(j) for j in chunk]
 
 
 def model_for(o: Obligation, inputs: List[str], timeout_s: float = 60.0, minimise: bool = True):
